@@ -1,4 +1,5 @@
 import Thanos.Model.Iter
+import Thanos.Model.ReadPath
 import Thanos.Lemmas.ListLike
 import Thanos.Generated.Facts
 /-
@@ -142,6 +143,197 @@ theorem C01_provenance_fn (f : String) (hf : f ∉ counterFuncs) (r : List Sampl
     engine and the gauge functions are NOT counter functions -/
 example : ["xrate", "xincrease", "xdelta", "delta", "idelta", "deriv", "", "sum", "max_over_time"].all
     (fun f => !isCounter f) = true := by decide
+
+/-! ### the series-SET level: which input series are replicas of which output series -/
+
+/-- every group is non-empty, carries a label set of the input, and holds input series of exactly
+    that label set -/
+theorem groupAdj_mem : ∀ (l : List (List Lbl × List Sample)) (g : List Lbl × List (List Sample)),
+    g ∈ groupAdj l → g.2 ≠ [] ∧ ∀ r ∈ g.2, (g.1, r) ∈ l := by
+  intro l
+  induction l with
+  | nil => intro g hg; simp [groupAdj] at hg
+  | cons s rest ih =>
+    obtain ⟨ls, sm⟩ := s
+    intro g hg
+    unfold groupAdj at hg
+    cases hr : groupAdj rest with
+    | nil =>
+      rw [hr] at hg
+      simp only [List.mem_singleton] at hg
+      subst hg
+      exact ⟨by simp, by intro r hr'; simp at hr'; subst hr'; exact List.mem_cons_self⟩
+    | cons g0 gs =>
+      obtain ⟨ls', reps⟩ := g0
+      rw [hr] at hg
+      simp only at hg
+      have ih0 := ih (ls', reps) (by rw [hr]; exact List.mem_cons_self)
+      split at hg
+      · rename_i heq
+        rcases List.mem_cons.mp hg with hg | hg
+        · subst hg
+          refine ⟨by simp, ?_⟩
+          intro r hr'
+          rcases List.mem_cons.mp hr' with h | h
+          · subst h; exact List.mem_cons_self
+          · have := ih0.2 r h
+            simp only at this
+            rw [← heq] at this
+            exact List.mem_cons_of_mem _ this
+        · obtain ⟨h1, h2⟩ := ih g (by rw [hr]; exact List.mem_cons_of_mem _ hg)
+          exact ⟨h1, fun r hr' => List.mem_cons_of_mem _ (h2 r hr')⟩
+      · rcases List.mem_cons.mp hg with hg | hg
+        · subst hg
+          exact ⟨by simp, by intro r hr'; simp at hr'; subst hr'; exact List.mem_cons_self⟩
+        · obtain ⟨h1, h2⟩ := ih g (by rw [hr]; exact hg)
+          exact ⟨h1, fun r hr' => List.mem_cons_of_mem _ (h2 r hr')⟩
+
+/-- **nothing is lost, nothing moves**: writing the groups out again, replica by replica, gives
+    back the input series in their order — every input series is a replica of exactly one output
+    series, the one of its own label set -/
+theorem groupAdj_flatten : ∀ (l : List (List Lbl × List Sample)),
+    (groupAdj l).flatMap (fun g => g.2.map fun r => (g.1, r)) = l := by
+  intro l
+  induction l with
+  | nil => simp [groupAdj]
+  | cons s rest ih =>
+    obtain ⟨ls, sm⟩ := s
+    unfold groupAdj
+    cases hr : groupAdj rest with
+    | nil =>
+      rw [hr] at ih
+      simp only [List.flatMap_nil] at ih
+      simp [← ih]
+    | cons g0 gs =>
+      obtain ⟨ls', reps⟩ := g0
+      rw [hr] at ih
+      simp only
+      split
+      · rename_i heq
+        subst heq
+        simp only [List.flatMap_cons, List.map_cons, List.cons_append] at ih ⊢
+        rw [ih]
+      · simp only [List.flatMap_cons, List.map_cons, List.map_nil, List.cons_append, List.nil_append] at ih ⊢
+        rw [ih]
+
+/-- neighbouring output series have different label sets -/
+def AdjDistinct : List (List Lbl × List (List Sample)) → Prop
+  | a :: b :: rest => a.1 ≠ b.1 ∧ AdjDistinct (b :: rest)
+  | _ => True
+
+theorem groupAdj_adjDistinct : ∀ (l : List (List Lbl × List Sample)), AdjDistinct (groupAdj l) := by
+  intro l
+  induction l with
+  | nil => simp [groupAdj, AdjDistinct]
+  | cons s rest ih =>
+    obtain ⟨ls, sm⟩ := s
+    unfold groupAdj
+    cases hr : groupAdj rest with
+    | nil => simp [AdjDistinct]
+    | cons g0 gs =>
+      obtain ⟨ls', reps⟩ := g0
+      rw [hr] at ih
+      simp only
+      split
+      · rename_i heq
+        subst heq
+        cases gs with
+        | nil => simp [AdjDistinct]
+        | cons g1 gs' => exact ⟨ih.1, ih.2⟩
+      · rename_i hne
+        exact ⟨hne, ih⟩
+
+theorem groupAdj_labels_sublist : ∀ (l : List (List Lbl × List Sample)),
+    ((groupAdj l).map (·.1)).Sublist (l.map (·.1)) := by
+  intro l
+  induction l with
+  | nil => simp [groupAdj]
+  | cons s rest ih =>
+    obtain ⟨ls, sm⟩ := s
+    unfold groupAdj
+    cases hr : groupAdj rest with
+    | nil => simp
+    | cons g0 gs =>
+      obtain ⟨ls', reps⟩ := g0
+      rw [hr] at ih
+      simp only
+      split
+      · rename_i heq
+        subst heq
+        simp only [List.map_cons] at ih ⊢
+        exact List.Sublist.cons _ ih
+      · simp only [List.map_cons] at ih ⊢
+        exact List.Sublist.cons₂ _ ih
+
+/-- **one output series per distinct label set**: if the input arrives in label order (any order
+    `le` in which different label sets are not mutually `le` — `labels.Compare`), the output label
+    sets are pairwise different -/
+theorem C01_set_one_per_labelset (le : List Lbl → List Lbl → Prop)
+    (antisymm : ∀ a b, le a b → le b a → a = b)
+    (l : List (List Lbl × List Sample)) (hs : (l.map (·.1)).Pairwise le) :
+    (groupAdj l).Pairwise (fun a b => a.1 ≠ b.1) := by
+  have hsub := List.Pairwise.sublist (groupAdj_labels_sublist l) hs
+  have hadj := groupAdj_adjDistinct l
+  generalize groupAdj l = gs at hsub hadj
+  induction gs with
+  | nil => exact List.Pairwise.nil
+  | cons a t ih =>
+    cases t with
+    | nil => exact List.Pairwise.cons (by intro x hx; cases hx) List.Pairwise.nil
+    | cons b t' =>
+      simp only [List.map_cons, List.pairwise_cons] at hsub
+      obtain ⟨ha, hb, ht⟩ := hsub
+      refine List.Pairwise.cons ?_ (ih (by simp only [List.map_cons, List.pairwise_cons]; exact ⟨hb, ht⟩) hadj.2)
+      intro x hx heq
+      rcases List.mem_cons.mp hx with hx | hx
+      · subst hx; exact hadj.1 heq
+      · have h1 : le a.1 b.1 := ha b.1 (by simp)
+        have h2 : le b.1 x.1 := hb x.1 (List.mem_map.mpr ⟨x, hx, rfl⟩)
+        rw [← heq] at h2
+        exact hadj.1 (antisymm _ _ h1 h2)
+
+/-- **C01 at the set level**: for every function name outside `isCounter`'s set, every sample of
+    every output series of `dedup.NewSeriesSet` is a sample (timestamp and value) of an input
+    series WITH THAT OUTPUT SERIES' LABEL SET (replica labels removed) — no sample crosses from one
+    logical series into another, whatever the label sets are -/
+theorem C01_set_provenance (f : String) (hf : f ∉ counterFuncs) (rl : List String)
+    (series : List (List Lbl × List Sample))
+    (hv : ∀ s ∈ series, SSorted s.2 ∧ ∀ x ∈ s.2, minT < x.t) :
+    ∀ o ∈ dedupSet true f rl series, ∀ z ∈ drain o.2,
+      ∃ s ∈ series, normLbls (rmLabels rl s.1) = o.1 ∧ z ∈ s.2 := by
+  intro o ho z hz
+  unfold dedupSet at ho
+  obtain ⟨g, hg, rfl⟩ := List.mem_map.mp ho
+  obtain ⟨hne, hmem⟩ := groupAdj_mem _ g hg
+  have hin : ∀ r ∈ g.2, ∃ s ∈ series, normLbls (rmLabels rl s.1) = g.1 ∧ r = s.2 := by
+    intro r hr
+    have := hmem r hr
+    unfold stripAll at this
+    obtain ⟨s, hs, hs2⟩ := List.mem_map.mp this
+    refine ⟨s, hs, ?_, ?_⟩
+    · exact (Prod.mk.inj hs2).1
+    · exact (Prod.mk.inj hs2).2.symm
+  cases hreps : g.2 with
+  | nil => exact absurd hreps hne
+  | cons r rs =>
+    simp only [hreps, groupIt] at hz
+    have hvalid : ValidReplicas r rs := by
+      intro q hq
+      obtain ⟨s, hs, _, rfl⟩ := hin q (by rw [hreps]; exact hq)
+      exact hv s hs
+    obtain ⟨q, hq, hzq⟩ := C01_provenance_fn f hf r rs hvalid z hz
+    obtain ⟨s, hs, hl, rfl⟩ := hin q (by rw [hreps]; exact hq)
+    exact ⟨s, hs, hl, hzq⟩
+
+/-- the hash-colliding label sets of the Prometheus TSDB tests are different label sets: two
+    output series -/
+example : (dedupSet true "" ["replica"]
+    [([("__name__", "metric"), ("lbl1", "value"), ("lbl2", "l6CQ5y"), ("replica", "a")], [⟨10, 1⟩]),
+     ([("__name__", "metric"), ("lbl1", "value"), ("lbl2", "l6CQ5y"), ("replica", "b")], [⟨10, 1⟩]),
+     ([("__name__", "metric"), ("lbl1", "value"), ("lbl2", "v7uDlF"), ("replica", "a")], [⟨10, 7⟩])]).map
+      (fun o => (o.1, drain o.2))
+    = [([("__name__", "metric"), ("lbl1", "value"), ("lbl2", "l6CQ5y")], [⟨10, 1⟩]),
+       ([("__name__", "metric"), ("lbl1", "value"), ("lbl2", "v7uDlF")], [⟨10, 7⟩])] := by decide
 
 /-- **C01, single replica.** -/
 theorem C01_single (fixed counter : Bool) (r : List Sample) : drain (mk fixed counter r []) = r := by
@@ -391,5 +583,12 @@ theorem C01_fact_counter_funcs :
     Thanos.Facts.dedupCounterReturns =
       ["f == \"increase\" || f == \"rate\" || f == \"irate\" || f == \"resets\""] ∧
     Thanos.Facts.dedupNewSeriesCounter = ["f"] := by decide
+
+/-- `dedupSeriesSet.next` decides "replica of the current series" by EQUALITY of the label sets
+    (the model's `groupAdj`), of the label set `Next` took from the first series of the group -/
+theorem C01_fact_set_grouping :
+    Thanos.Facts.dedupSetNextConds = ["!s.ok", "!labels.Equal(s.lset, nextLset)"] ∧
+    Thanos.Facts.dedupSetNextLset = "nextLset := s.peek.Labels()" ∧
+    Thanos.Facts.dedupSetCurLset = ["s.peek.Labels()"] := by decide
 
 end Thanos.Dedup
